@@ -563,6 +563,58 @@ def check_bits(pfp, pfn, us, fs):
     return out + [("@bits", "")]
 
 
+TAG_CLASHES = ["energy+variance", "energy+second_moment", "occupation+custom-suffix", "bitstrings-twice", "distinct"]
+
+
+def tagclash_cases(tier):
+    return [("tagclash", k) for k in TAG_CLASHES]
+
+
+def check_tagclash(kind):
+    """Two observables whose TAGS coincide (a tag is '<base tag>_<suffix>', so observables of different classes can share one): the
+    configuration is refused, or every observable's values are retrievable by its tag."""
+    from pulser import Pulse, Register, Sequence
+    from pulser.backend import BitStrings, Energy, EnergySecondMoment, EnergyVariance, Occupation
+    from pulser_simulation import QutipBackendV2, QutipConfig
+
+    from mc.worlds import World
+
+    t = [0.25, 0.5, 1.0]
+    obs = {
+        "energy+variance": lambda: [Energy(evaluation_times=t, tag_suffix="variance"), EnergyVariance(evaluation_times=t)],
+        "energy+second_moment": lambda: [EnergySecondMoment(evaluation_times=t), Energy(evaluation_times=t, tag_suffix="second_moment")],
+        "occupation+custom-suffix": lambda: [Occupation(evaluation_times=t, tag_suffix="x"), Occupation(evaluation_times=t, tag_suffix="x", one_state="g")],
+        "bitstrings-twice": lambda: [BitStrings(evaluation_times=t), BitStrings(evaluation_times=t, num_shots=7)],
+        "distinct": lambda: [Energy(evaluation_times=t), EnergyVariance(evaluation_times=t)],
+    }[kind]()
+    if len({o.tag for o in obs}) == len(obs) and kind != "distinct":
+        return [("@tags-do-not-coincide", "")]
+    try:
+        cfg = QutipConfig(observables=obs)
+    except (ValueError, TypeError):
+        return [("C20:distinct-tags-refused", kind)] if kind == "distinct" else [("@tagclash-refused", "")]
+    dev = World(dict(name="e2e")).device
+    seq = Sequence(Register({"q0": (0.0, 0.0), "q1": (6.0, 0.0)}), dev)
+    seq.declare_channel("g", "rydberg_global")
+    seq.add(Pulse.ConstantPulse(80, 5.0, 1.0, 0.0), "g")
+    try:
+        res = QutipBackendV2(seq, config=cfg).run()
+    except Exception as e:
+        return gridx.crash_finding(e, "running-the-emulator", kind) or [("@tagclash-run-refused", type(e).__name__)]
+    out = []
+    for o in obs:
+        for tt in t:
+            try:
+                by_obs, by_tag = res.get_result(o, tt), res.get_result(o.tag, tt)
+            except Exception as e:
+                out.append((f"C20:result-not-retrievable:{kind}", f"{o.tag} at {tt}: {e}"[:160]))
+                break
+            if not np.allclose(np.asarray(by_obs, dtype=complex), np.asarray(by_tag, dtype=complex)):
+                out.append((f"C20:result-by-tag-is-another-observables:{kind}", f"tag {o.tag!r} at t={tt}: by observable {by_obs!r}, by tag {by_tag!r}"[:220]))
+                break
+    return out + [("@tagclash", "")]
+
+
 def worker(case):
     with warnings.catch_warnings():
         warnings.simplefilter("ignore")
@@ -581,12 +633,14 @@ def worker(case):
             return check_tsweep(*case[1:])
         if k == "rstore":
             return check_rstore(case[1])
+        if k == "tagclash":
+            return check_tagclash(case[1])
     return []
 
 
 def run(tier, seed):
     res = Result("exploration")
-    cases = obs_cases(tier) + repr_cases(tier) + e2e_cases(tier) + bit_cases(tier) + tsweep_cases(tier) + rstore_cases(tier)
+    cases = obs_cases(tier) + repr_cases(tier) + e2e_cases(tier) + bit_cases(tier) + tsweep_cases(tier) + rstore_cases(tier) + tagclash_cases(tier)
     outs = gridx.run(worker, cases, chunksize=4)
     classes = {}
     for c, r in zip(cases, outs):
